@@ -86,8 +86,17 @@ def r1_parent_owner(m):
 class NewClient(F.Client):
     track = {"_deepcopy", "result", "obj", "$made", "$parented", "$inited_unparented", "match"}
 
-    def __init__(self):
+    def __init__(self, fnode=None):
         self.bad = []
+        # the locals are found by what is bound to them, not by their spelling
+        self.obj = "obj"
+        self.track = set(type(self).track)
+        if fnode is not None:
+            for n in A.body_nodes(fnode):
+                if isinstance(n, ast.Assign) and len(n.targets) == 1 and isinstance(n.targets[0], ast.Name):
+                    self.track.add(n.targets[0].id)
+                    if isinstance(n.value, ast.Call) and (A.dotted(n.value.func) or "") == "object.__new__":
+                        self.obj = n.targets[0].id
 
     def call_value(self, call, st):
         d = A.dotted(call.func) or ""
@@ -99,9 +108,9 @@ class NewClient(F.Client):
         d = A.dotted(call.func) or ""
         if d == "object.__new__":
             return (st.set("$made", F.TRUE).set("$parented", F.FALSE),)
-        if d.split(".")[-1] == "_set_parent" and call.args and A.text(call.args[0]) == "obj":
+        if d.split(".")[-1] == "_set_parent" and call.args and A.text(call.args[0]) == self.obj:
             return (st.set("$parented", F.TRUE),)
-        if d == "obj.init" and st.get("$made") == F.TRUE and st.get("$parented") != F.TRUE:
+        if d == self.obj + ".init" and st.get("$made") == F.TRUE and st.get("$parented") != F.TRUE:
             self.bad.append(("init-before-parent", "obj.init(...) is reached before _set_parent(obj, result)", call))
         return (st,)
 
@@ -110,7 +119,7 @@ def r2_parent_on_construction(m):
     r = RuleResult("C10.R2", "every node built from a match result has its children's parent set before it is initialised/returned")
     r.floor = 1
     f = m.need_func(UTILS, "Base.__new__")
-    cl = NewClient()
+    cl = NewClient(f.node)
     fl = F.Flow(m, f, cl)
     out = fl.run(F.State({"$made": F.FALSE, "$parented": F.FALSE, "_deepcopy": F.FALSE}))
     r.instances += 1
@@ -119,7 +128,7 @@ def r2_parent_on_construction(m):
     for st, node in out.ret:
         if node is None or node.value is None:
             continue
-        if A.text(node.value) == "obj" and st.get("$made") == F.TRUE:
+        if A.text(node.value) == cl.obj and st.get("$made") == F.TRUE:
             n += 1
             if st.get("$parented") != F.TRUE:
                 probs["return-unparented"] = ("`return obj` is reachable for a node built from a match result without "
